@@ -1,12 +1,13 @@
 (* C04 -- No input crashes or hangs the tool.  Property theorems only (the sequential core; partial, see DESIGN.md C04).
    Proved: the validator of every mode except `check all its-stave` has no reachable panic site, for EVERY packet list; the
    `unreachable_unchecked` hint of the ALPIDE decoder is never reached for ANY byte sequence; the three panic sites of the
-   stave-level code: a data word outside a frame and a lane without a chip are handled (repaired findings F5, F8; regenerated facts),
-   the invalid-layer site is reached exactly for layer 7 (recorded finding F6); the exit status is 0, 1
+   stave-level code: a data word outside a frame, a lane without a chip and a fatal lane number that is no inner barrel lane are
+   handled (repaired findings F5, F8, F17; regenerated facts), the invalid-layer site is reached exactly for layer 7 (recorded
+   finding F6) and it is the ONLY site any validator can reach, in any mode, for every packet list; the exit status is 0, 1
    or the configured one.  Not proved here: termination / linear step count of the scanner on arbitrary bytes (C03 / C18 prove
    it for well-framed and truncated inputs), memory safety of the unsafe blocks, thread behaviour (C17). *)
 From Coq Require Import List NArith Bool.
-From FP Require Import Model.Base Model.Rdh Model.Alpide Model.CdpRunning Model.Scanner Model.Link Model.Collector Proofs.C04_proofs.
+From FP Require Import Model.Base Model.Rdh Model.Alpide Model.CdpRunning Model.Scanner Model.Link Model.Collector Proofs.C04_proofs Proofs.C04_stave.
 From FP Require Gen.Facts.
 Import ListNotations.
 Open Scope N_scope.
@@ -27,6 +28,22 @@ Proof. exact (c04_no_frame_when Gen.Facts.data_word_without_frame_is_ignored eq_
 Theorem C04_lane_without_chip_no_panic : forall ly ln cc co s, exists o, lane_checks ly ln cc co s = Ok o.
 Proof. exact (c04_no_chip_when Gen.Facts.lane_without_chip_is_reported eq_refl eq_refl). Qed.
 
+Theorem C04_fatal_lane_beyond_barrel_no_panic : forall ids fatal, exists r, inner_groupings ids fatal = Ok r.
+Proof. exact (inner_groupings_ok (conj eq_refl (conj eq_refl eq_refl))). Qed.
+(* the pinned commit (finding F17, repaired): lane number 9 known as fatal and a frame with the matching lane count crashed *)
+Theorem C04_refuted_fatal_lane_beyond_barrel : inner_groupings_gen false [0; 1] [9] = Panic SITE_fatal_lane_number.
+Proof. reflexivity. Qed.
+
+(* every mode (also `check all its-stave`), every configuration, every packet list: a validator runs through, or it stops at the
+   invalid-layer site and some packet of the list names layer 7 *)
+Theorem C04_only_invalid_layer_site_reachable : forall c ps,
+  (exists m, run_validator c ps = Ok m) \/
+  (run_validator c ps = Panic SITE_stave_from_feeid /\ exists p, In p ps /\ 6 < layer_from_feeid (r_fee_id (c_rdh p))).
+Proof. exact (c04_only_layer_site (conj eq_refl (conj eq_refl eq_refl))). Qed.
+Theorem C04_no_panic_with_valid_layers : forall c ps,
+  (forall p, In p ps -> layer_from_feeid (r_fee_id (c_rdh p)) <= 6) -> exists m, run_validator c ps = Ok m.
+Proof. exact (c04_no_panic_valid_layers (conj eq_refl (conj eq_refl eq_refl))). Qed.
+
 Theorem C04_exit_range : forall aee r flag,
   exit_code aee r flag = 0 \/ exit_code aee r flag = 1 \/ exists n, aee = Some n /\ exit_code aee r flag = n.
 Proof. exact c04_exit_range. Qed.
@@ -37,4 +54,8 @@ Print Assumptions C04_no_byte_decodes_to_padding.
 Print Assumptions C04_site_invalid_layer.
 Print Assumptions C04_data_word_outside_frame_no_panic.
 Print Assumptions C04_lane_without_chip_no_panic.
+Print Assumptions C04_fatal_lane_beyond_barrel_no_panic.
+Print Assumptions C04_refuted_fatal_lane_beyond_barrel.
+Print Assumptions C04_only_invalid_layer_site_reachable.
+Print Assumptions C04_no_panic_with_valid_layers.
 Print Assumptions C04_exit_range.
